@@ -55,4 +55,31 @@ def processParticipationRecordUpdates (currentAttestations : List PendingAttesta
     List PendingAttestation × List PendingAttestation :=
   (currentAttestations, [])
 
+/-! ## `common.ComputeSyncCommitteeIndices` / `altair.ProcessSyncCommitteeUpdates` -/
+
+/-- The selection loop with the hash of the random-byte source cached in `h` and refreshed every 32 rounds
+(`if i%32 == 0 { h = hFn(seed ‖ i/32) }`). `active` is `epc.NextEpoch.ActiveIndices`, `shuffled i` is
+`PermuteIndex(rounds, i % len(active), len(active), seed)`. -/
+def computeSyncCommitteeIndicesLoop (cfg : Config) (vals : List Validator) (active : List Nat) (seed : Bytes)
+    (shuffled : Nat → Nat) : Nat → Nat → Bytes → List Nat → Option (List Nat)
+  | 0, _, _, acc => if acc.length ≥ cfg.SYNC_COMMITTEE_SIZE then some acc else none
+  | fuel + 1, i, h, acc =>
+    if acc.length ≥ cfg.SYNC_COMMITTEE_SIZE then some acc else
+    let candidateIndex := active.getD (shuffled i) 0
+    let effectiveBalance := eff_of vals candidateIndex
+    -- every 32 rounds, create a new source for randomByte
+    let h := if i % 32 == 0 then Spec.hash (seed ++ uintToBytes 8 (i / 32)) else h
+    let randomByte := (h.get! (i % 32)).toNat
+    let acc := if effectiveBalance * 0xff ≥ cfg.MAX_EFFECTIVE_BALANCE * randomByte then acc ++ [candidateIndex] else acc
+    computeSyncCommitteeIndicesLoop cfg vals active seed shuffled fuel (i + 1) h acc
+
+def computeSyncCommitteeIndices (cfg : Config) (vals : List Validator) (active : List Nat) (seed : Bytes)
+    (shuffled : Nat → Nat) (fuel : Nat) : Option (List Nat) :=
+  computeSyncCommitteeIndicesLoop cfg vals active seed shuffled fuel 0 ZERO32 []
+
+/-- `altair.ProcessSyncCommitteeUpdates`: at a period boundary `RotateSyncCommittee(next)` -/
+def processSyncCommitteeUpdates (cfg : Config) (nextEpoch : Nat) (current next computed : Option SyncCommittee) :
+    Option SyncCommittee × Option SyncCommittee :=
+  if nextEpoch % cfg.EPOCHS_PER_SYNC_COMMITTEE_PERIOD == 0 then (next, computed) else (current, next)
+
 end Zrnt.Beacon.Impl
